@@ -3,9 +3,7 @@
      VIOL <id> <signature> <message>
      DIFF <id> <what> <message>
    and STAT lines at the end.  Failing blocks are copied to --fail-dir for replay. *)
-let checkers : (string * (Blocks.block -> Blocks.verdict list)) list = [
-  "C01", Chk_c01.check;
-]
+let checkers = Registry.checkers
 
 let () =
   let file = ref "" and faildir = ref "" in
